@@ -182,15 +182,15 @@ def gen_media_opts(rng):
     only medium)"""
     n = rng.choice([0, 1, 1, 2, 2, 2, 3, 3, 4])
     toks = []
-    x = 0
+    x = rng.choice([-12, -2, -1, 0, 0])
     if n == 1 and rng.random() < 0.3:
         toks.append([0, 0, 0, 0])            # perfect ground
     else:
         for i in range(n):
-            x += rng.randint(2, 30)
+            x += rng.randint(0 if i == 0 else 2, 30) if rng.random() < 0.8 else 0
             v = [rng.choice([3, 5, 13, 20, 80]), rng.randint(1, 9), 0 if i == 0 else -rng.randint(0, 5)]
             if (i < n - 1 and rng.random() < 0.9) or (i == n - 1 and rng.random() < 0.35):
-                v.append(x if rng.random() < 0.9 else 1000000)
+                v.append(x if rng.random() < 0.85 else rng.choice([1000000, 0]))
             if rng.random() < 0.04:
                 v = v[:2] if rng.random() < 0.5 else (v + [7, 7])[:5]
             toks.append([0] + v)
